@@ -4,7 +4,11 @@ import (
 	"bytes"
 	"fmt"
 	"log"
+	"runtime"
 	"strings"
+	"sync"
+	"sync/atomic"
+	"time"
 
 	stackage "github.com/JesseCoretta/go-stackage"
 	"verifharness/core"
@@ -139,8 +143,187 @@ func c03Growth(s stackage.Stack, m *ListModel, o LOp, next func() any, nonest bo
 	return "", "", shown
 }
 
+func c03Conc(tier string) int {
+	if tier == "thorough" {
+		return 150000
+	}
+	return 6000
+}
+
+var c03Yield atomic.Uint64
+
+// c03Concurrent: several goroutines grow one mutex-enabled capacity stack at once (the library promises atomic
+// operations once SetMutex has been called, so "no sequence of calls" includes every interleaving of whole calls).
+// Scheduling points are widened through the lock-point hook and inside a permissive push policy.
+func c03Concurrent(c *core.Ctx) {
+	r := c.Rng
+	next := uniqueVals()
+	k := r.Range(1, 4)
+	kind := Kinds[r.Intn(len(Kinds))]
+	s := NewStack(kind, k)
+	offered := map[any]bool{}
+	for i, n := 0, r.Intn(k); i < n; i++ {
+		v := next()
+		offered[v] = true
+		s.Push(v)
+	}
+	policy := r.Chance(1, 2)
+	if policy {
+		spins := r.Intn(3)
+		s.SetPushPolicy(func(x ...any) error {
+			for i := 0; i <= spins; i++ {
+				runtime.Gosched()
+			}
+			return nil
+		})
+		c.Count("concurrent.with-push-policy")
+	}
+	s.SetMutex()
+	every := uint64(r.Range(1, 3))
+	stackage.VerifSetHook(func(point string, id uintptr) {
+		if (point == "lock.want" || point == "lock.released") && c03Yield.Add(1)%every == 0 {
+			runtime.Gosched()
+		}
+	})
+	defer stackage.VerifSetHook(nil)
+	nw := r.Range(2, 5)
+	type job struct {
+		kind string
+		vals []any
+		at   int
+		src  stackage.Stack
+	}
+	jobs := make([][]job, nw)
+	var log []string
+	for w := range jobs {
+		for i, n := 0, r.Range(1, 3); i < n; i++ {
+			var j job
+			switch r.Intn(6) {
+			case 0, 1, 2:
+				j.kind = "Push"
+				for q, nq := 0, r.Range(1, 3); q < nq; q++ {
+					j.vals = append(j.vals, next())
+				}
+			case 3:
+				j.kind, j.vals, j.at = "Insert", []any{next()}, r.Range(0, k)
+			case 4:
+				j.kind = "TransferInto"
+				j.src = NewStack("LIST", 0)
+				for q, nq := 0, r.Range(1, 2); q < nq; q++ {
+					v := next()
+					j.vals = append(j.vals, v)
+					j.src.Push(v)
+				}
+			default:
+				j.kind = "Pop"
+			}
+			for _, v := range j.vals {
+				offered[v] = true
+			}
+			jobs[w] = append(jobs[w], j)
+			log = append(log, fmt.Sprintf("w%d:%s%v", w, j.kind, j.vals))
+		}
+	}
+	desc := map[string]any{"kind": kind, "cap": k, "policy": policy, "workers": nw, "jobs": log}
+	var wg sync.WaitGroup
+	var over atomic.Int64
+	var panics atomic.Value
+	stop := make(chan struct{})
+	start := make(chan struct{})
+	for w := range jobs {
+		wg.Add(1)
+		go func(js []job) {
+			defer wg.Done()
+			<-start
+			for _, j := range js {
+				if p, msg, site := Guard(func() {
+					switch j.kind {
+					case "Push":
+						s.Push(j.vals...)
+					case "Insert":
+						s.Insert(j.vals[0], j.at)
+					case "TransferInto":
+						j.src.Transfer(s)
+					default:
+						s.Pop()
+					}
+				}); p {
+					panics.Store(j.kind + " panicked (" + site + "): " + msg)
+				}
+				if n := s.Len(); n > k {
+					over.Store(int64(n))
+				}
+			}
+		}(jobs[w])
+	}
+	// an observer that never writes: the limit must hold at every moment, not only at the end
+	obs := make(chan struct{})
+	go func() {
+		defer close(obs)
+		for {
+			select {
+			case <-stop:
+				return
+			default:
+			}
+			if n := s.Len(); n > k {
+				over.Store(int64(n))
+			}
+			runtime.Gosched()
+		}
+	}()
+	close(start)
+	done := make(chan struct{})
+	go func() { wg.Wait(); close(done) }()
+	select {
+	case <-done:
+	case <-time.After(60 * time.Second):
+		close(stop)
+		c.Inconclusive("C03 concurrent case did not finish within the 60 s watchdog (possible deadlock; judged by C10, not here)")
+		return
+	}
+	close(stop)
+	<-obs
+	c.Count("concurrent.histories")
+	c.Add("concurrent.ops", int64(len(log)))
+	if v := panics.Load(); v != nil {
+		c.Violatef("concurrent:panic", desc, "%v", v)
+		return
+	}
+	if n := over.Load(); n != 0 {
+		c.Violatef("concurrent:len-exceeds-cap", desc, "Len()=%d observed on a capacity-%d stack while %d goroutines were growing it", n, k, nw)
+		return
+	}
+	n := s.Len()
+	if n > k || s.Cap() != k || s.Avail() != k-n || s.IsFull() != (n == k) {
+		c.Violatef("concurrent:capacity-arithmetic", desc, "after the run: Len=%d Cap=%d Avail=%d IsFull=%v on capacity %d", n, s.Cap(), s.Avail(), s.IsFull(), k)
+		return
+	}
+	seen := map[any]bool{}
+	for i := 0; i < n; i++ {
+		v, _ := s.Index(i)
+		if !offered[v] || seen[v] {
+			c.Violatef("concurrent:content", desc, "after the run position %d holds %s (never offered, or stored twice)", i, Show(v))
+			return
+		}
+		seen[v] = true
+	}
+	if snap, ok := stackage.VerifDump(s); !ok || len(snap.Slots) != n {
+		c.Violatef("concurrent:raw-length", desc, "raw slots %d, Len %d", len(snap.Slots), n)
+		return
+	}
+	if n == k {
+		c.Count("concurrent.ended-full")
+	}
+	c.NontrivialStr(fmt.Sprint(kind, k, policy, log))
+}
+
 func c03Run(c *core.Ctx, idx int) {
-	maxLen, exh, _ := c03Tier(c.Tier)
+	maxLen, exh, rnd := c03Tier(c.Tier)
+	if idx >= exh+rnd {
+		c03Concurrent(c)
+		return
+	}
 	r := c.Rng
 	next := uniqueVals()
 	exhaustive := idx < exh
@@ -308,12 +491,13 @@ func init() {
 		ID: "C03",
 		Cases: func(tier string) int {
 			_, e, r := c03Tier(tier)
-			return e + r
+			return e + r + c03Conc(tier)
 		},
 		Run: c03Run,
 		Rule: "cases = all histories of length <= 3 (quick) / <= 4 (thorough) over {Push x1/x2/x3, Insert at 0/mid/end, Pop, Remove(0), Reset, Transfer-into x1/x2/x3, Marshal-into} for k in {1,2,3}, " +
 			"plus seeded random 36-op sawtooth histories (grow past the limit with partly-fitting batches, Insert, Transfer-into, Marshal-into; shrink by Pop/Remove/Reset; grow again) for k in 1..6 and for stacks built with no / zero / negative capacity argument; a quarter of all cases runs under a permissive push policy (the policy-gated append path has its own capacity test); " +
 			"after every op Len<=k, Cap()==k, Avail()==k-Len, IsFull()==(Len==k), raw slice length <= raw capacity and the content (earliest-offered values kept in order) are compared with the list model. " +
+			"Concurrent phase (6 000 / 150 000 cases): 2-5 goroutines run 1-3 growth calls each (Push batches, Insert, Transfer-into, a few Pops) on one mutex-enabled stack of capacity 1..4, half of them through a permissive push policy that yields; the lock-point hook yields at lock.want / lock.released; workers and a read-only observer goroutine check Len()<=k all the time, and capacity arithmetic, raw length and content (only offered values, none twice) are checked at the end. " +
 			"non-trivial = the history reaches the full state at least twice with a shrink in between AND contains a Push batch that only partly fits; distinct = hash of (configuration, op list).",
 		Assumptions: []string{
 			"for Transfer-into only 'never above capacity, stored values are an in-order prefix of the source' is demanded here; all-or-nothing is C15",
@@ -321,7 +505,8 @@ func init() {
 		},
 		Floors: func(tier string) map[string]int64 {
 			return map[string]int64{"reached-full": 1000, "partly-fitting-batch": 500, "nontrivial-histories": 200,
-				"op.TransferInto": 100, "op.MarshalInto": 100, "op.Insert": 100, "nocap.explicit-arg": 10, "with-permissive-push-policy": 1000}
+				"op.TransferInto": 100, "op.MarshalInto": 100, "op.Insert": 100, "nocap.explicit-arg": 10, "with-permissive-push-policy": 1000,
+				"concurrent.histories": 5000, "concurrent.with-push-policy": 2000, "concurrent.ended-full": 2000}
 		},
 	})
 }
